@@ -130,6 +130,58 @@ static rc::Gen<RCase> genR() {
         const int flipmode = *irange(0, 2);  // 0 none, 1 some, 2 all
         for (size_t i = 0; i < c.poly.faces.size(); i++) c.flip.push_back(flipmode == 0 ? 0 : flipmode == 2 ? 1 : *irange(0, 2) == 0);
         c.lmin_f = *uniform(0.04, 0.16);  // l_max / diameter in [0.12, 0.48]
+        // hostile resolutions: l_min of the order of the smallest feature, where the reconstruction is expected to struggle and to use up
+        // its retries (only the "valid closed surface or clean failure" clause is judged there, see `coarse` below)
+        if (c.triangulate && *irange(0, 3) == 0) c.lmin_f = *uniform(0.2, 0.9);
+        c.seed = (uint64_t)*irange(1, 1 << 30);
+        return c;
+    });
+}
+
+// hostile corner of the domain: sharp, thin or non-convex inputs with l_min of the order of their features, so that the bounded retries
+// are really used up (judged by runR's "valid closed surface or clean failure" clause only)
+static rc::Gen<RCase> genCoarse() {
+    using namespace vf;
+    return rc::gen::exec([]() {
+        RCase c;
+        c.triangulate = 1;
+        pg::Poly p;
+        double feature = 1;
+        const int shape = *irange(0, 5);
+        if (shape >= 4) {
+            // sharp wedge: prism over a triangle (or kite) with a very acute angle
+            const double w = *uniform(0.08, 0.4), h = *uniform(0.15, 0.6);
+            if (shape == 4) p = pg::prism_over({{0, 0}, {1, 0}, {1, w}}, h);
+            else p = pg::prism_over({{0, 0}, {1, -w / 2}, {1.25, 0}, {1, w / 2}}, h);
+            feature = std::min(w, 2 * h), c.kind = 1;
+        } else if (shape == 0) {
+            double a = *uniform(0.5, 1.0), h = *uniform(0.15, 0.8);
+            p = pg::lprism(a, h), feature = std::min(a, 2 * h), c.kind = 5;
+        } else if (shape == 1) {
+            int n = *irange(3, 5);
+            double r = *uniform(0.7, 1.3), h = *uniform(0.1, 0.5);  // thin plate / wedge
+            p = pg::prism(n, r, h), feature = 2 * h, c.kind = 1;
+        } else if (shape == 2) {
+            TriMesh m = mg::bipyramid(*irange(3, 5));
+            double sz = *uniform(0.25, 2.5);  // flat lens or needle
+            for (size_t i = 0; i < m.nn(); i++) m.xyz[3 * i + 2] *= sz;
+            p = pg::from_trimesh(m), feature = std::min(1.0, sz), c.kind = 2;
+        } else {
+            double a = *uniform(0.6, 1.4), b = *uniform(0.15, 0.5), cc = *uniform(0.6, 1.4);
+            p = pg::box(a, b, cc), feature = 2 * b, c.kind = 0;
+        }
+        mg::Placement pl = *mg::genPlacement(true);
+        if (pl.mag_class >= 2) pl.mag_class = 1, pl.t[0] /= 100, pl.t[1] /= 100, pl.t[2] /= 100;
+        if (pl.mag_class >= 3) pl.t[0] /= 10, pl.t[1] /= 10, pl.t[2] /= 10;
+        vg::Motion mo = pl.motion();
+        for (size_t i = 0; i < p.nn(); i++) {
+            auto r = mo.applyd(p.xyz[3 * i], p.xyz[3 * i + 1], p.xyz[3 * i + 2]);
+            p.xyz[3 * i] = r[0], p.xyz[3 * i + 1] = r[1], p.xyz[3 * i + 2] = r[2];
+        }
+        c.poly = p;
+        c.feature = feature * pl.scale;
+        for (size_t i = 0; i < c.poly.faces.size(); i++) c.flip.push_back(0);
+        c.lmin_f = *uniform(0.25, 1.1);
         c.seed = (uint64_t)*irange(1, 1 << 30);
         return c;
     });
@@ -188,6 +240,7 @@ static std::string runR(const RCase& k, vf::Ctx& ctx) {
     scope.add(cells);
     if (failed) {
         ctx.count(std::string("failed_") + KIND[k.kind]);
+        if (k.triangulate && k.lmin_f > 0.17) ctx.count("coarse_resolution_failed_cleanly");
         if (tname != "intialization_exception") ctx.count("failure_reported_by_other_std_exception_" + tname);
         // a clean failure is allowed; with triangulation disabled and a triangulated closed input there is nothing that may fail
         if (!k.triangulate) return "triangulated closed input rejected although the initial triangulation is disabled: " + what;
@@ -195,8 +248,29 @@ static std::string runR(const RCase& k, vf::Ctx& ctx) {
     }
     if (cells.size() != 1 || !cells[0]) return "initialisation returned no cell without reporting a failure";
     cell& C = *cells[0];
-    std::string t = ct::topo_check(C);
+    const bool coarse_domain = k.triangulate && k.lmin_f > 0.17;
+    ct::TopoOpts topts;
+    // with l_min above the thickness of a plate-like input both sides are sampled by one layer of points and the reconstruction is a flat,
+    // double-sided sheet: closed and consistently wound, but with (numerically) no inside, so "outward" cannot be judged there
+    if (coarse_domain) topts.check_positive_volume = false, topts.check_cached_normals = false;
+    std::string t = ct::topo_check(C, topts);
     if (!t.empty()) return std::string("a ") + (k.triangulate ? "reconstructed" : "loaded") + " cell was handed to the solver but " + t;
+    if (coarse_domain) {
+        TriMesh gm = ct::snapshot(C);
+        const ld Vg = vg::signed_volume(gm), d3 = powl(vg::mesh_size(gm), 3);
+        if (Vg < -1e-6 * d3) {
+            std::ostringstream o2;
+            o2 << "a reconstructed cell was handed to the solver inside-out: signed enclosed volume " << (double)Vg << " (size^3 = " << (double)d3 << ")";
+            return o2.str();
+        }
+        if (Vg <= 1e-6 * d3) ctx.count("coarse_resolution_flat_double_sided_result");
+    }
+    const bool coarse = k.triangulate && k.lmin_f > 0.17;
+    if (coarse) {
+        ctx.count(std::string("coarse_resolution_succeeded_") + KIND[k.kind]);
+        ctx.nontriv();
+        return "";
+    }
     TriMesh got = ct::snapshot(C);
     std::ostringstream os;
     os << std::setprecision(10);
@@ -431,6 +505,7 @@ static std::string runH(const HCase& k, vf::Ctx& ctx) {
 int main(int argc, char** argv) {
     std::vector<vf::Sub> subs;
     subs.push_back(vf::make_sub<RCase>("reconstruct", genR, runR));
+    subs.push_back(vf::make_sub<RCase>("coarse", genCoarse, runR));
     subs.push_back(vf::make_sub<RCase>("poisson", genR, runPoisson));
     subs.push_back(vf::make_sub<HCase>("holes", genH, runH));
     int rc = vf::engine_main(argc, argv, "C13_reconstruct", subs);
